@@ -1,7 +1,7 @@
 (** Model of [tabulate_experiments] of sweetpea/_internal/main.py: the table
     data it computes for every experiment (rows in [itertools.product] order,
     frequency over the selected trial indices, percentage as the exact rational
-    [100 * frequency / len(trials)]), the defaults of [factors] and [trials],
+    [100 * frequency / len(trials)], 0 for an empty selection), the defaults of [factors] and [trials],
     and the exceptions it can raise.  The text layout of the printed table is
     not modelled (the harness parses it back).
 
@@ -70,19 +70,19 @@ Fixpoint frequency (keys : list fname) (element : list value) (e : experiment) (
     end
   end.
 
-(** The body of [for element in product( *levels )] for one experiment. *)
+(** The body of [for element in product( *levels )] for one experiment;
+    [proportion = frequency / num_trials if num_trials > 0 else 0]. *)
 Definition tabulate_one (factors : list tfactor) (e : experiment) (trials : list Z) : res table :=
   let keys := map fst factors in
   let num_trials := Z.of_nat (List.length trials) in
   mapM (fun element =>
           match frequency keys element e trials with
           | Err x => Err x
-          | Ok f => if num_trials =? 0 then Err ZeroDivisionError
-                    else Ok (element, (f, (100 * f, num_trials)))
+          | Ok f => Ok (element, (f, if 0 <? num_trials then (100 * f, num_trials) else (0, 1)))
           end)
        (product (map snd factors)).
 
-(** [if trials is None: trials = list(range(0, len(e[list(e.keys())[0]])))] *)
+(** [exp_trials = list(range(0, len(e[list(e.keys())[0]]))) if trials is None else trials] *)
 Definition default_trials (e : experiment) (trials : option (list Z)) : res (list Z) :=
   match trials with
   | Some t => Ok t
@@ -93,14 +93,9 @@ Definition default_trials (e : experiment) (trials : option (list Z)) : res (lis
     end
   end.
 
-Definition is_str (v : value) : bool := match v with VStr _ => true | VNum _ => false end.
-
-(** The loop over the experiments.  [trials] is the function parameter, which
-    the loop body assigns: a default computed for one experiment stays in force
-    for the following ones.  Result: the tables printed, and the exception that
-    ended the call, if any.  Building the print strings
-    ([f.name + " " + l.name]) raises TypeError for a level name that is not a
-    [str], after the table data of that experiment has been computed. *)
+(** The loop over the experiments; the default of [trials] is computed per
+    experiment.  Result: the tables printed, and the exception that ended the
+    call, if any. *)
 Fixpoint tabulate_loop (factors : list tfactor) (exps : list experiment) (trials : option (list Z))
   : list table * option err :=
   match exps with
@@ -111,10 +106,7 @@ Fixpoint tabulate_loop (factors : list tfactor) (exps : list experiment) (trials
     | Ok tr =>
       match tabulate_one factors e tr with
       | Err x => ([], Some x)
-      | Ok tb =>
-        if forallb is_str (List.concat (map snd factors)) then
-          let (tbs, st) := tabulate_loop factors rest (Some tr) in (tb :: tbs, st)
-        else ([], Some TypeError)
+      | Ok tb => let (tbs, st) := tabulate_loop factors rest trials in (tb :: tbs, st)
       end
     end
   end.
